@@ -70,10 +70,12 @@ Definition prev_line_break_remover (s : str) (pos : nat) : res range :=
 
 (** NextLineBreakRemover::format *)
 Definition next_line_break_remover (s : str) (pos : nat) : res range :=
-  match two_next s pos with
-  | Some lb => Ok (pos, lb)
-  | None => Ok (pos, pos)
-  end.
+  if negb (is_boundary s pos) then Ok (pos, pos)
+  else if negb (residue_is_blank s pos) then Ok (pos, pos)
+  else match two_next s pos with
+       | Some lb => Ok (pos, lb)
+       | None => Ok (pos, pos)
+       end.
 
 (** build_formatters, in order *)
 Definition seam_formatters : list (str -> nat -> res range) :=
